@@ -128,6 +128,57 @@ def _text_gc_order(v, events):
     return False
 
 
+def _tree_gc_order(v, events):
+    """KF-TREE-GC-ORDER: one client deletes a tree element while another client
+    inserts a tree element in the same history, and the failure is a silent
+    difference in the ORDER of the tree's top-level children only."""
+    import json as _json
+    if v["tag"] not in ("RefEquiv", "Converged", "BuildEquiv"):
+        return False
+    if any(e.get("err") and "injected storage fault" not in e["err"] for e in events
+           if e["ev"] in ("Sync", "Attach", "Detach", "Ref", "Build", "Undo", "Redo")):
+        return False
+    deleters, inserters = set(), set()
+    for e in events:
+        if e["ev"] == "Edit" and e.get("outcome") == "ok" and (e.get("op") or {}).get("k") == "tree.edit":
+            m = (e.get("args") or {}).get("mode")
+            if m == "delelem":
+                deleters.add(e["c"])
+            if m == "inselem":
+                inserters.add(e["c"])
+    if not any(d != i for d in deleters for i in inserters):
+        return False
+    ev = v.get("event") or {}
+    refs = {e["s"]: e["content"] for e in events if e["ev"] == "Ref"}
+    kids = lambda doc: [_json.dumps(c, sort_keys=True) for c in ((doc.get("tr") or {}).get("children") or [])]
+    rest = lambda doc: _json.dumps({k: x for k, x in doc.items() if k != "tr"}, sort_keys=True)
+
+    def order_only(mine, theirs):
+        try:
+            a, b = _json.loads(mine), _json.loads(theirs)
+        except Exception:
+            return False
+        return sorted(kids(a)) == sorted(kids(b)) and rest(a) == rest(b) and kids(a) != kids(b)
+
+    if ev.get("ev") == "Build":
+        n = ev.get("s")
+        return n in refs and order_only(ev.get("content"), refs[n])
+    if ev.get("ev") == "Ref":
+        n = ev.get("s")
+        latest = {}
+        for e in events:
+            if e is ev or (e["ev"] == "Ref" and e["s"] == n):
+                break
+            if e.get("rep") and e["rep"].get("cp"):
+                latest[e["c"]] = e["rep"]
+        bad = [r["content"] for r in latest.values() if r["cp"][0] == n and not r.get("pend") and r["content"] != ev["content"]]
+        return bool(bad) and all(order_only(c, ev["content"]) for c in bad)
+    if ev.get("rep"):
+        n = (ev["rep"].get("cp") or [None])[0]
+        return n in refs and order_only(ev["rep"].get("content"), refs[n])
+    return False
+
+
 def _undo_move_anchor(v, events):
     """KF-UNDO-MOVE-ANCHOR-PURGED: the history undoes/redoes an array move and a
     replica rejects a change with 'MoveAfter ...: child not found'."""
@@ -137,7 +188,7 @@ def _undo_move_anchor(v, events):
     return any("MoveAfter" in (e.get("err") or "") and "child not found" in (e.get("err") or "") for e in events)
 
 
-TRIGGERS = {"KF-ARRAY-GC-ORDER": _array_gc_order, "KF-TEXT-GC-ORDER": _text_gc_order, "KF-UNDO-MOVE-ANCHOR-PURGED": _undo_move_anchor}
+TRIGGERS = {"KF-ARRAY-GC-ORDER": _array_gc_order, "KF-TEXT-GC-ORDER": _text_gc_order, "KF-TREE-GC-ORDER": _tree_gc_order, "KF-UNDO-MOVE-ANCHOR-PURGED": _undo_move_anchor}
 
 
 def attribute(prop, v, events, first=None):
